@@ -287,6 +287,10 @@ class Sim:
                 if not (0 <= step[1] < len(cur.elems)):
                     raise SimUB("oob", "index %d of array of %d" % (step[1], len(cur.elems)))
                 return cur.elems[step[1]]
+            if isinstance(cur, Opaque) and cur.kind == "List":
+                if not (0 <= step[1] < len(cur.data[0])):
+                    raise SimUB("oob", "index %d of list of %d" % (step[1], len(cur.data[0])))
+                return cur.data[0][step[1]]
             raise Unsupported("index into %r" % (cur,))
         if k == "inner":
             if isinstance(cur, Opaque) and cur.kind == "RefCell":
@@ -320,6 +324,10 @@ class Sim:
                 es = list(cur.elems)
                 es[step[1]] = new
                 return Array(es, cur.ty)
+            if isinstance(cur, Opaque) and cur.kind == "List":
+                es = list(cur.data[0])
+                es[step[1]] = new
+                return Opaque("List", (tuple(es),), cur.ty)
             raise Unsupported("write index into %r" % (cur,))
         if k == "inner":
             if isinstance(cur, Opaque) and cur.kind == "RefCell":
@@ -404,6 +412,11 @@ class Sim:
             return Ptr(st.refobjs[v.name])
         if isinstance(v, Opaque) and v.kind in ("Rc", "Arc", "Box"):
             return v.data[0]
+        if isinstance(v, Const) and isinstance(v.val, str):
+            key = "str:" + v.val
+            if key not in st.refobjs:
+                st.refobjs[key] = st.new_obj("str", v)
+            return Ptr(st.refobjs[key])
         raise Unsupported("deref of %r" % (v,))
 
     def eval_operand(self, st, fr, op):
@@ -691,7 +704,7 @@ class Sim:
                     return Enum(ty, rv["v"], a["variants"][rv["v"]]["name"], ops)
                 return Struct(ty, ops)
             if ak == "closure":
-                return Opaque("Closure", (rv["did"], tuple(ops)), dest_ty)
+                return Opaque("Closure", (rv["did"], tuple(ops), GBox(fr.gargs)), dest_ty)
             raise Unsupported("aggregate " + ak)
         if k == "repeat":
             n = const_val(subst_const(rv["n"], fr.gargs))
@@ -1007,6 +1020,8 @@ class Sim:
                 fr2, ret = self.pop_frame(st)
                 if ret is UNINIT and ty_str(self_ret_ty(fr2)) == "()":
                     ret = UNIT
+                if fr2.tag and fr2.tag[0] == "post":
+                    ret = self.models.POST[fr2.tag[1]](self, st, ret, fr2.tag[2])
                 if fr2.dest is not None:
                     self.write(st, fr2.dest, ret)
                 if st.frames and fr2.ret_bb is not None:
@@ -1137,7 +1152,25 @@ class Sim:
             return Array([self.final_value(st, f, depth + 1) for f in v.elems], v.ty)
         if isinstance(v, Opaque) and v.kind in ("RefCell", "MU"):
             return Opaque(v.kind, (self.final_value(st, v.data[0], depth + 1),) + v.data[1:], v.ty)
+        if isinstance(v, Opaque) and v.kind == "List":
+            return Opaque("List", (tuple(self.final_value(st, e, depth + 1) for e in v.data[0]),), v.ty)
         return v
+
+
+class GBox:
+    """Hashable wrapper carrying generic args along with a closure value."""
+    def __init__(self, g):
+        self.g = g
+        self._k = repr(g)
+
+    def __eq__(self, o):
+        return isinstance(o, GBox) and o._k == self._k
+
+    def __hash__(self):
+        return hash(self._k)
+
+    def __repr__(self):
+        return "<gargs>"
 
 
 def self_ret_ty(fr):
